@@ -62,6 +62,21 @@ Proof.
     + destruct (Z_lt_ge_dec k (cut key ord (x + 1))) as [|Ge]; [lia|]. pose proof (B2 k ie ltac:(lia) G). lia.
 Qed.
 
+(* the indices between two consecutive cuts hold exactly the elements with that key *)
+Lemma between_cuts (key : iedge -> Z) (ord : list iedge) x ie :
+  sorted_by key ord ->
+  ((exists k, cut key ord x <= k < cut key ord (x + 1) /\ get ord k = Ok ie) <-> In ie ord /\ key ie = x).
+Proof.
+  intros S.
+  destruct (cut_spec key ord x S) as (_ & A1 & B1). destruct (cut_spec key ord (x + 1) S) as (_ & A2 & B2).
+  split.
+  - intros (k & Hk & G). split; [eapply get_In; eauto|].
+    pose proof (B1 k ie ltac:(lia) G). pose proof (A2 k ie ltac:(lia) G). lia.
+  - intros [Hin Hk]. apply In_get in Hin as [k G]. exists k. split; [|exact G]. split.
+    + destruct (Z_lt_ge_dec k (cut key ord x)) as [Lt|]; [|lia]. pose proof (A1 k ie Lt G). lia.
+    + destruct (Z_lt_ge_dec k (cut key ord (x + 1))) as [|Ge]; [lia|]. pose proof (B2 k ie ltac:(lia) G). lia.
+Qed.
+
 Lemma tree_clear_from_par q o t0 t :
   tree_clear_from q o t0 = Ok t -> t_parent t = repeat NULL (Z.to_nat (q_N q + 1)).
 Proof.
@@ -74,7 +89,7 @@ Proof.
 Qed.
 
 (* the index an operation is documented to reach from index [idx] (-1 = null) *)
-Definition in_tree (q : tseq) (x i : Z) : Prop :=
+Definition nav_in_tree (q : tseq) (x i : Z) : Prop :=
   0 <= i < q_ntrees q /\ exists l r, get (q_bps q) i = Ok l /\ get (q_bps q) (i + 1) = Ok r /\ l <= x < r.
 
 Definition op_spec (q : tseq) (idx : Z) (op : Z * Z) (idx' : Z) : Prop :=
@@ -85,7 +100,7 @@ Definition op_spec (q : tseq) (idx : Z) (op : Z * Z) (idx' : Z) : Prop :=
   (kind = 2 /\ idx' = 0) \/
   (kind = 3 /\ idx' = nt - 1) \/
   (kind = 4 /\ idx' = -1) \/
-  (kind = 5 /\ ((0 <= a < q_L q /\ in_tree q a idx') \/ (~ (0 <= a < q_L q) /\ idx' = idx))) \/
+  (kind = 5 /\ ((0 <= a < q_L q /\ nav_in_tree q a idx') \/ (~ (0 <= a < q_L q) /\ idx' = idx))) \/
   (kind = 6 /\ let k := if a <? 0 then a + nt else a in
                ((0 <= k < nt /\ idx' = k) \/ (~ (0 <= k < nt) /\ idx' = idx))).
 
@@ -419,7 +434,7 @@ Section Nav.
   Qed.
 
   (* ---- which tree contains x ---- *)
-  Lemma in_tree_unique x i k : in_tree q x i -> in_tree q x k -> i = k.
+  Lemma nav_in_tree_unique x i k : nav_in_tree q x i -> nav_in_tree q x k -> i = k.
   Proof.
     intros (Ri & li & ri & Gli & Gri & Hi) (Rk & lk & rk & Glk & Grk & Hk).
     pose proof W_bps_incr as Inc.
@@ -432,7 +447,7 @@ Section Nav.
       + pose proof (Inc (k + 1) i rk li ltac:(lia) Grk Gli). lia.
   Qed.
 
-  Lemma find_index_spec x : 0 <= x < L -> exists i, find_index q x = Ok i /\ in_tree q x i.
+  Lemma find_index_spec x : 0 <= x < L -> exists i, find_index q x = Ok i /\ nav_in_tree q x i.
   Proof.
     intros Hx. pose proof W_ntrees_pos as NT. pose proof W_bps_len as BL.
     unfold find_index, search_sorted.
@@ -446,7 +461,7 @@ Section Nav.
       { destruct (Z.eq_dec lo (q_ntrees q)) as [->|]; [|lia]. pose proof (A3 L W_bps_last). lia. }
       destruct (W_bps_get lo ltac:(lia)) as [al Gl]. destruct (W_bps_get (lo + 1) ltac:(lia)) as [ar Gr].
       rewrite Gl. cbn [bind]. pose proof (A3 al Gl). pose proof (A4 ar Gr).
-      assert (IT : in_tree q x lo) by (split; [lia|]; exists al, ar; auto).
+      assert (IT : nav_in_tree q x lo) by (split; [lia|]; exists al, ar; auto).
       destruct (Z.ltb_spec al x).
       + rewrite Gr. cbn [bind]. replace (x <? ar) with true by (symmetry; apply Z.ltb_lt; lia).
         exists lo. split; [f_equal; lia | exact IT].
@@ -457,7 +472,7 @@ Section Nav.
   (* ---- seek from the null state ---- *)
   Lemma seek_from_null_inv s s' x :
     Inv s -> idx_of s = -1 -> 0 <= x < L -> nav_seek_from_null q o s x = Ok s' ->
-    Inv s' /\ in_tree q x (idx_of s').
+    Inv s' /\ nav_in_tree q x (idx_of s').
   Proof.
     intros I Ix Hx H. pose proof I as [Jt _]. destruct s as [t p]. simpl in Jt. unfold idx_of in Ix. simpl in Ix.
     destruct (inv_cases _ I) as [(_ & Zl & Zr & PN)|(R & _)]; [|unfold idx_of in R; simpl in R; lia].
@@ -537,7 +552,7 @@ Section Nav.
   Qed.
 
   (* ---- the linear walk, through the null state if need be ---- *)
-  Lemma seek_loop_inv x k fwd : in_tree q x k -> forall fuel s s',
+  Lemma seek_loop_inv x k fwd : nav_in_tree q x k -> forall fuel s s',
     Inv s -> seek_loop fuel q o fwd s x = Ok s' -> Inv s' /\ idx_of s' = k.
   Proof.
     intros IT. induction fuel as [|f IH]; intros s s' I H; simpl in H; [discriminate|].
@@ -545,7 +560,7 @@ Section Nav.
     - inversion H; subst s'. split; [exact I|].
       unfold in_interval in II. apply andb_true_iff in II as [A B]. apply Z.leb_le in A. apply Z.ltb_lt in B.
       destruct (inv_cases _ I) as [(_ & Zl & Zr & _)|(R & PA & _)]; [lia|].
-      apply (in_tree_unique x); [|exact IT]. destruct PA as (_ & _ & Gl & Gr & _).
+      apply (nav_in_tree_unique x); [|exact IT]. destruct PA as (_ & _ & Gl & Gr & _).
       split; [exact R|]. exists (n_left (v_pos s)), (n_right (v_pos s)). auto.
     - destruct fwd.
       + bind_inv H. destruct a as [s1 v]. destruct (next_inv s s1 v I E) as [I1 _]. eapply IH; eauto.
@@ -553,7 +568,7 @@ Section Nav.
   Qed.
 
   Lemma seek_inv s s' x : Inv s -> nav_seek q o s x = Ok s' ->
-    0 <= x < L /\ Inv s' /\ in_tree q x (idx_of s').
+    0 <= x < L /\ Inv s' /\ nav_in_tree q x (idx_of s').
   Proof.
     intros I H. unfold nav_seek in H. rewrite W_q_L_L in H.
     destruct ((0 <=? x) && (x <? L)) eqn:B; cbn [negb] in H; [|discriminate].
@@ -575,7 +590,7 @@ Section Nav.
     apply orb_false_iff in B as [B1 B2]. apply Z.ltb_ge in B1. apply Z.leb_gt in B2.
     split; [lia|]. bind_inv H. destruct (seek_inv _ _ _ I H) as (_ & I' & IT). split; [exact I'|].
     destruct (W_bps_get (k + 1) ltac:(lia)) as [r Gr].
-    apply (in_tree_unique a); [exact IT|]. split; [lia|]. exists a, r. split; [exact E|]. split; [exact Gr|].
+    apply (nav_in_tree_unique a); [exact IT|]. split; [lia|]. exists a, r. split; [exact E|]. split; [exact Gr|].
     pose proof (W_bps_lt k a r E Gr). lia.
   Qed.
 
@@ -628,8 +643,8 @@ Section Nav.
     Inv s' /\ hist_spec q (idx_of s) ops (idx_of s').
   Proof.
     induction ops as [|op r IH]; intros s s' I H; simpl in H.
-    - inversion H; subst. split; [exact I | constructor].
-    - destruct (op_rejected q op) eqn:RJ.
+    - inversion H; subst s'. split; [exact I | constructor].
+    - revert H. case_eq (op_rejected q op); intros RJ H.
       + destruct (IH _ _ I H) as [I' HS]. split; [exact I'|].
         econstructor; [apply rejected_spec; exact RJ | exact HS].
       + bind_inv H. destruct (op_inv _ _ _ I RJ E) as [I1 S1].
